@@ -41,15 +41,25 @@ func truncate(s string, n int) string {
 	if len(s) <= n {
 		return s
 	}
+	valid := utf8.ValidString(s)
 	s = s[:n]
-	for len(s) > 0 && !utf8.ValidString(s) {
+	for valid && len(s) > 0 && !utf8.ValidString(s) { // do not cut a rune of a valid name in two
 		s = s[:len(s)-1]
 	}
 	return s
 }
 
-// fixName maps the few strings outside the domain (".", "..", "") into it.
+// names that are not valid UTF-8, control characters, backslashes and the replacement character itself
+var rawNames = []string{
+	"caf\xe9.txt", "caf\xe8.txt", "\x80", "\xbf", "\xc3", "\xe6\x97", "\xf0\x9f\x98", "\xfe", "\xff", "\xc0\xaf", "\xc0\xae\xc0\xae", "\xed\xa0\x80",
+	"a\nb", "a\tb", "\x7f", "\x01", "\r", "a\x1b[31m", "\ufffd", "a\ufffd", "\xff\xfe", "na\xefve", "\xe4\xf6\xfc", "a\\b", "\\",
+}
+var rawFamilies = [][2]string{{"caf", ".txt"}, {"", ""}, {"a", "b"}, {"日", "本"}}
+var rawVariants = []string{"\xe9", "\xe8", "\xff", "\xfe", "\x80", "\ufffd", "\xc3", "\xe9\xe9", "\xff\xff", "\ufffd\ufffd"}
+
+// fixName maps the few strings outside the domain (".", "..", "", names with '/' or NUL) into it.
 func fixName(s string) string {
+	s = strings.NewReplacer("/", "_", "\x00", "_").Replace(s)
 	s = truncate(s, 200)
 	if s == "" || s == "." || s == ".." {
 		return s + "_"
@@ -59,7 +69,16 @@ func fixName(s string) string {
 
 func genName(t *rapid.T) string {
 	var s string
-	switch rapid.IntRange(0, 11).Draw(t, "nameKind") {
+	switch rapid.IntRange(0, 15).Draw(t, "nameKind") {
+	case 12:
+		// arbitrary bytes 0x01..0xFF: Linux names are byte strings ('/' is mapped to '_' by fixName)
+		s = string(rapid.SliceOfN(rapid.ByteRange(1, 255), 1, 12).Draw(t, "rawName"))
+	case 13:
+		s = rapid.SampledFrom(rawNames).Draw(t, "name")
+	case 14, 15:
+		// families of siblings that differ only in bytes that are not valid UTF-8 (or in U+FFFD itself)
+		fam := rapid.SampledFrom(rawFamilies).Draw(t, "family")
+		s = fam[0] + rapid.SampledFrom(rawVariants).Draw(t, "variant") + fam[1]
 	case 0, 1, 2, 3:
 		s = rapid.StringOfN(rapid.RuneFrom(asciiRunes), 1, 10, -1).Draw(t, "name")
 	case 4, 5:
@@ -105,7 +124,7 @@ var dirGen = rapid.Custom(func(t *rapid.T) Dir {
 	if rapid.IntRange(0, 2).Draw(t, "nest") > 0 {
 		parent = rapid.IntRange(0, 7).Draw(t, "parent")
 	}
-	return Dir{Parent: parent, Name: genName(t)}
+	return Dir{Parent: parent, Name: Name(genName(t))}
 })
 
 var fileGen = rapid.Custom(func(t *rapid.T) File {
@@ -113,7 +132,7 @@ var fileGen = rapid.Custom(func(t *rapid.T) File {
 	if rapid.IntRange(0, 2).Draw(t, "inDir") > 0 {
 		f.Dir = rapid.IntRange(0, 7).Draw(t, "dir")
 	}
-	f.Name = genName(t)
+	f.Name = Name(genName(t))
 	f.Content = genContent(t)
 	return f
 })
@@ -136,7 +155,7 @@ var preGen = rapid.Custom(func(t *rapid.T) PreFile {
 		p.Rel = rapid.SampledFrom([]string{"longer", "longer", "longer", "shorter", "samelen", "empty", "own"}).Draw(t, "rel")
 	} else {
 		p.Dir = rapid.IntRange(-1, 7).Draw(t, "dir")
-		p.Name = genName(t)
+		p.Name = Name(genName(t))
 	}
 	p.Extra = smallContentGen.Draw(t, "extra")
 	return p
@@ -187,9 +206,9 @@ func genTree(t *rapid.T) TreeCase {
 		// a tail of some file's name (possibly crossing into its directory name), or a fixed one
 		var cands []string
 		for _, f := range c.Files {
-			cands = append(cands, f.Name)
+			cands = append(cands, string(f.Name))
 			if f.Dir >= 0 && nd > 0 {
-				cands = append(cands, c.Dirs[f.Dir%nd].Name+"/"+f.Name)
+				cands = append(cands, string(c.Dirs[f.Dir%nd].Name)+"/"+string(f.Name))
 			}
 		}
 		cands = append(cands, "f2", ".txt", "", "/f")
@@ -198,17 +217,17 @@ func genTree(t *rapid.T) TreeCase {
 		for start < len(s) && !utf8.RuneStart(s[start]) {
 			start++
 		}
-		c.Arg = s[start:]
+		c.Arg = Name(s[start:])
 	case "dir", "notdir":
 		cands := []string{"nomatch", "src"}
 		for _, d := range c.Dirs {
-			cands = append(cands, d.Name)
+			cands = append(cands, string(d.Name))
 		}
 		for _, f := range c.Files { // a file name is not a directory component
-			cands = append(cands, f.Name)
+			cands = append(cands, string(f.Name))
 			break
 		}
-		c.Arg = rapid.SampledFrom(cands).Draw(t, "dirArg")
+		c.Arg = Name(rapid.SampledFrom(cands).Draw(t, "dirArg"))
 	}
 	return c
 }
@@ -233,7 +252,7 @@ var segPool = []string{"..", "..", "..", ".", "", "a", "a", "b", "x", "x", "new"
 
 func genEntryName(t *rapid.T) string {
 	if rapid.IntRange(0, 9).Draw(t, "alphabetName") == 0 {
-		return rapid.SampledFrom(HostileAlphabet()).Draw(t, "hostile").Name
+		return rapid.SampledFrom(HostileAlphabet()).Draw(t, "hostile").Name.str()
 	}
 	n := rapid.IntRange(0, 6).Draw(t, "nSeg")
 	segs := make([]string, 0, n+8)
@@ -285,7 +304,7 @@ func genEntryName(t *rapid.T) string {
 }
 
 var entryGen = rapid.Custom(func(t *rapid.T) Entry {
-	e := Entry{Name: genEntryName(t)}
+	e := Entry{Name: Name(genEntryName(t))}
 	switch rapid.IntRange(0, 9).Draw(t, "kind") {
 	case 0:
 		e.Kind = "d"
@@ -322,7 +341,7 @@ func genArchive(t *rapid.T) ArchiveCase {
 	c.Entries = rapid.SliceOfN(entryGen, rapid.IntRange(0, 4).Draw(t, "minEntries"), 7).Draw(t, "entries")
 	if len(c.Entries) > 0 && rapid.IntRange(0, 2).Draw(t, "derive") == 0 {
 		for _, d := range rapid.SliceOfN(derivedGen, 1, 2).Draw(t, "derived") {
-			e := Entry{Name: c.Entries[d.Of%len(c.Entries)].Name + d.Below, Data: d.Data}
+			e := Entry{Name: c.Entries[d.Of%len(c.Entries)].Name + Name(d.Below), Data: d.Data}
 			at := d.At % (len(c.Entries) + 1)
 			c.Entries = append(c.Entries[:at], append([]Entry{e}, c.Entries[at:]...)...)
 		}
